@@ -230,7 +230,12 @@ func (c *Ctx) panicCallers() {
 				r.Check(okAll, "C18.panic", name, cn, pos, "event handler: every fire site of its events puts the user in the context, so the helper never reaches storage", "the panicking helper can reach storage: "+detail)
 				continue
 			}
-			r.Bad("C18.panic", name, cn, pos, "request-time code calls "+cn+", which panics when the storage layer fails to load the user")
+			// key middlewares by role, not by the name of the closure/type that implements them
+			keyFn := name
+			if hasRequestParams(fn) && len(CallsTo(fn, fnServeHTTP)) > 0 {
+				keyFn = pkgOf(fn) + ".middleware"
+			}
+			r.Add(Obligation{Rule: "C18.panic", Key: "C18.panic|" + keyFn + "|" + cn, Func: name, Pos: pos, Status: Violated, Detail: "request-time code calls " + cn + ", which panics when the storage layer fails to load the user"})
 		}
 	}
 	r.Extra["panicking_helper_call_sites"] = n
